@@ -347,6 +347,8 @@ def check_program(res, lines, rng, label, devices=('disk', 'bound', 'cas'), form
                     if ok:
                         reenter = core_of(memory(t))[0] == core0
             res.count('ascii_reenterable' if reenter else 'ascii_not_reenterable')
+            if not reenter:
+                res.count('ascii_not_reenterable:' + label.split(':')[0])
         # ---- fresh sessions: load back -------------------------------------------------------------------
         for dev in devices:
             devcls = dev if dev != 'cas' else ('wav' if use_wav else 'cas')
